@@ -131,7 +131,7 @@ def cases(tier, seed):
         out.append({'item': 'csa', 'wa': wa, 'wb': wb, 'wc': wc, 'final': 'ripple_add' if (wa + wb + wc) % 2 else 'kogge_stone'})
     groups = [[3, 3], [1, 2, 3], [4, 4, 4, 4], [1, 5, 2, 5, 3], [2] * 7, [8, 1, 8, 1, 8, 1], [3] * 9]
     if tier != 'quick':
-        groups += [[16] * 5, [1] * 12, [7, 9, 11, 13], [4] * 16]
+        groups += [[16] * 5, [1] * 12, [7, 9, 11, 13], [4] * 9]
     for ws in groups:
         for red in REDUCERS:
             for fin in ('kogge_stone', 'ripple_add', 'cla_adder'):
